@@ -20,7 +20,7 @@ from openhtf.util import threads as TH
 PROPERTY = 'C12'
 LEVEL = 'model_checking'
 EXPLANATION = ('bounded model checking of the sequentialised real functions on a virtual clock: every schedule with at most K '
-               'preemptions (statement granularity) and every symbolic duration/deadline within the bound is one path; CrossHair/z3 exhausts them')
+               'preemptions (statement granularity) and every symbolic duration/deadline within the bound is one path; CrossHair/z3 exhausts them. The schedule/duration variables are pinned by bisection (O(log n) solver decisions per path) and the pinned schedule then runs natively on the sequentialised code: z3 partitions and exhausts the domain under the preconditions, it does not reason symbolically inside a path.')
 
 _G = {'threading': prims.threading, 'time': prims.time}
 _NULL = logging.getLogger('verif.null')
